@@ -10,7 +10,7 @@
    waits for process-wide quiescence: a call that has not returned then is parked for good). Not modelled:
    Go scheduler fairness, net.Conn deadlines (a Write blocked on a silent peer ends only with the connection). *)
 From Coq Require Import NArith List Bool.
-From LLRP Require Import Client.Types Client.Model Client.ModelX Client.InvC08 Client.InvC09 Client.C09Proofs.
+From LLRP Require Import Client.Types Client.Model Client.ModelX Client.InvC08 Client.InvC09 Client.C09Proofs Client.Handoff.
 Import ListNotations.
 Open Scope N_scope.
 
@@ -112,6 +112,30 @@ Theorem C09_cancel_waiting_caller : forall cfg s c p,
   awaiting s' = awaiting s /\ same_ctl s s'.
 Proof. exact cancel_waiting_caller. Qed.
 Print Assumptions C09_cancel_waiting_caller.
+
+(* ---- the assumption behind the atomic [RFrame] ----
+   In the LTS, looking a reply's id up, deleting the await entry, reading the payload and handing the Message over are ONE
+   event, so [C09_cancel_isolated] considers a cancel before or after the whole of it. In reader.go the payload is read between
+   the lookup and the hand-off, and the caller may leave in that window (its cancel func then finds no entry). The atomic event
+   is faithful only because the hand-off cannot block: the channel has capacity 1 and carries one value. Client/Handoff.v is the
+   window on its own, with the capacity as a flag (checks/c09.py opens the window on the real code: the split-cancel and split-close families). *)
+Theorem C09_handoff_never_blocks : forall evs,
+  h_reader (hrun true evs) = HAtSend -> h_reader (hstep true (hrun true evs) HReaderSend) = HDelivered.
+Proof. exact handoff_never_blocks. Qed.
+Print Assumptions C09_handoff_never_blocks.
+
+Theorem C09_handoff_buffer_empty_before_send : forall evs,
+  h_reader (hrun true evs) <> HDelivered -> h_chan (hrun true evs) = false.
+Proof. exact chan_empty_until_sent. Qed.
+Print Assumptions C09_handoff_buffer_empty_before_send.
+
+(* with an unbuffered channel the statement is false: the caller leaves while the payload is arriving, the read loop reaches
+   its send, and no event is enabled any more (the read loop never reads another frame; Connect waits for it for ever) *)
+Theorem C09_handoff_unbuffered_refuted :
+  exists evs, let s := hrun false evs in
+    h_reader s = HAtSend /\ h_caller s = HLeft /\ forall e, hstep false s e = s.
+Proof. exact handoff_unbuffered_refuted. Qed.
+Print Assumptions C09_handoff_unbuffered_refuted.
 
 (* ---- "the serving call returns once the connection ends" ----
    FULL STATEMENT (enabledness): in every reachable state in which a loop has reported an error and Connect has
